@@ -617,6 +617,17 @@ class Executor:
                     return not_(truth(self.call_function(fi, [a, b], {}, st, node)))
             if fi is not None:
                 return truth(self.call_function(fi, [a, b], {}, st, node))
+        if isinstance(op, ast.Eq) and not self.spec_mode:
+            # float == int in the code: remember the pair, so that a named floor of the float (calls.floor_of) comes with
+            # the derived fact  x == n  ==>  floor(x) == n  (a consequence of the floor's two inequalities that the
+            # solvers' branch-and-bound does not always find on unbounded integers)
+            for u, v in ((a, b), (b, a)):
+                if isinstance(u.kind, (KFloat, KReal)) and is_intlike(v):
+                    x, n = to_float(u)[1], to_int(v)
+                    self.ctx.__dict__.setdefault("float_int_eq", {}).setdefault(x.get_id(), []).append((x, n))
+                    fc = self.ctx.__dict__.get("floor_cache", {})
+                    if x.get_id() in fc:
+                        self.ctx.add_hyp(implies(x == z3.ToReal(n), fc[x.get_id()][0] == n))
         return compare(self.CMP[type(op)], a, b)
 
     def contains(self, cont, x, st, node):
@@ -1277,6 +1288,14 @@ class Executor:
         self.__dict__.setdefault("_at_used", set()).add(key)
         for h in hints:
             name, text = (h[0], h[1]) if isinstance(h, tuple) else ("#", h)
+            if isinstance(h, tuple) and len(h) == 3:
+                # ("name", clause, [schema instances]): the instances (each a proved library lemma) serve this step only -
+                # they are premises of its obligation and are NOT added to the context of later obligations
+                local = [self.eval_spec(u[4:] if u.startswith("use ") else u, st) for u in h[2]]
+                cl = self.eval_spec(text, st)
+                self.ctx.oblige(st, "have:%s" % name, implies(and_(*local), cl), "hint", getattr(node, "lineno", None))
+                self.ctx.assume(st, cl)
+                continue
             if isinstance(text, str) and text.startswith("use "):
                 self.ctx.assume(st, self.eval_spec(text[4:], st))
                 continue
